@@ -1,9 +1,12 @@
 #!/venv/bin/python
-"""tools/try_mutant.py <patch.diff> [--demo demo.py] [--tier quick] C01 C05 ...
+"""tools/try_mutant.py <patch.diff> [--demo demo.py] [--tier quick] [--inplace] C01 C05 ...
 
-Applies a seeded change to /repo, confirms the pinned suite still passes and the demonstration
-fails, runs the named checks, then restores /repo (always) and confirms the demonstration passes
-on the restored tree. Prints one JSON summary line per step. Never leaves /repo modified.
+Confirms a seeded change and runs the named checks against it. Default: the change is applied in a
+scratch git worktree of /repo's HEAD (under /tmp, removed afterwards) and the checks are pointed at it
+with CFDPPY_VERIF_SCRATCH_REPO, so /repo itself is never modified and several changes can be tried while other
+checks run. --inplace applies it to /repo (git -C /repo apply), runs, and restores /repo.
+Steps: suite with the change (must stay at 78 passed), demonstration with the change (must exit 1),
+the checks, demonstration without the change (must exit 0). Prints a JSON summary.
 """
 import argparse
 import json
@@ -11,21 +14,22 @@ import os
 import re
 import subprocess
 import sys
+import tempfile
 import time
 
 REPO = "/repo"
 VERIF = os.path.dirname(os.path.dirname(os.path.abspath(__file__)))
 
 
-def sh(cmd, cwd=None, env=None, timeout=3600):
+def sh(cmd, cwd=None, env=None, timeout=7200):
     e = dict(os.environ)
     e.update(env or {})
     p = subprocess.run(cmd, shell=True, cwd=cwd, env=e, capture_output=True, text=True, timeout=timeout)
     return p.returncode, p.stdout + p.stderr
 
 
-def clean():
-    rc, out = sh("git status --porcelain --untracked-files=no", REPO)
+def clean(root):
+    rc, out = sh("git status --porcelain --untracked-files=no", root)
     return out.strip() == ""
 
 
@@ -36,42 +40,58 @@ def main():
     ap.add_argument("--tier", default="quick")
     ap.add_argument("--seed", default="1")
     ap.add_argument("--skip-suite", action="store_true")
+    ap.add_argument("--inplace", action="store_true")
     ap.add_argument("props", nargs="*")
     a = ap.parse_intermixed_args()
     res = {"patch": a.patch}
-    if not clean():
-        print("REPO NOT CLEAN - refusing")
-        return 2
-    rc, out = sh(f"git apply --whitespace=nowarn {os.path.abspath(a.patch)}", REPO)
-    if rc != 0:
-        rc, out = sh(f"git apply --3way --whitespace=nowarn {os.path.abspath(a.patch)}", REPO)
-        if rc != 0:
-            print("PATCH DOES NOT APPLY:", out[-500:])
-            sh("git reset -q --hard HEAD", REPO)
+    patch = os.path.abspath(a.patch)
+    demo = os.path.abspath(a.demo) if a.demo else None
+    if a.inplace:
+        root = REPO
+        if not clean(REPO):
+            print("REPO NOT CLEAN - refusing")
             return 2
-        sh("git reset -q", REPO)
+    else:
+        root = tempfile.mkdtemp(prefix="mutwt-", dir="/tmp")
+        os.rmdir(root)
+        rc, out = sh(f"git worktree add -q --detach {root} HEAD", REPO)
+        if rc != 0:
+            print("CAN NOT CREATE WORKTREE:", out[-300:])
+            return 2
     try:
+        rc, out = sh(f"git apply --whitespace=nowarn {patch}", root)
+        if rc != 0:
+            rc, out = sh(f"git apply --3way --whitespace=nowarn {patch}", root)
+            if rc != 0:
+                print("PATCH DOES NOT APPLY:", out[-500:])
+                return 2
+            sh("git reset -q", root)
+        env = {"PYTHONPATH": f"{root}/src:{root}"}
         if not a.skip_suite:
-            rc, out = sh("/venv/bin/python -m pytest -q -p no:cacheprovider --timeout=900 2>&1 | tail -3", REPO)
+            rc, out = sh("/venv/bin/python -m pytest -q -p no:cacheprovider --timeout=900 2>&1 | tail -3", root, {"PYTHONPATH": f"{root}/src"})
             m = re.search(r"(\d+) passed", out)
             res["suite_passed"] = int(m.group(1)) if m else 0
             res["suite_failed"] = "failed" in out
-        if a.demo:
-            rc, out = sh(f"/venv/bin/python {os.path.abspath(a.demo)}", REPO, {"PYTHONPATH": "/repo/src:/repo"}, timeout=600)
+        if demo:
+            rc, out = sh(f"/venv/bin/python {demo}", root, env, timeout=900)
             res["demo_with_change_exit"] = rc
         res["checks"] = {}
         for p in a.props:
             t0 = time.time()
-            rc, out = sh(f"./check {p} --tier {a.tier}", VERIF, {"VERIF_SEED": a.seed})
+            rc, out = sh(f"./check {p} --tier {a.tier}", VERIF, {"VERIF_SEED": a.seed, "CFDPPY_VERIF_SCRATCH_REPO": root})
             lines = [l for l in out.splitlines() if l.startswith("VIOLATION") or l.startswith("HARNESS") or l.startswith("INCONCLUSIVE") or l.startswith("  clause=")]
             res["checks"][p] = {"exit": rc, "wall": round(time.time() - t0, 1), "lines": [l[:400] for l in lines[:8]]}
     finally:
-        sh("git reset -q --hard HEAD", REPO)
-    if not clean():
+        if a.inplace:
+            sh("git reset -q --hard HEAD", REPO)
+        else:
+            sh(f"git worktree remove --force {root}", REPO)
+            sh("git worktree prune", REPO)
+    if a.inplace and not clean(REPO):
         print("REPO NOT CLEAN AFTER RESTORE")
         return 2
-    if a.demo:
-        rc, out = sh(f"/venv/bin/python {os.path.abspath(a.demo)}", REPO, {"PYTHONPATH": "/repo/src:/repo"}, timeout=600)
+    if demo:
+        rc, out = sh(f"/venv/bin/python {demo}", REPO, {"PYTHONPATH": "/repo/src:/repo"}, timeout=900)
         res["demo_without_change_exit"] = rc
     print(json.dumps(res, indent=1))
     caught = [p for p, r in res.get("checks", {}).items() if r["exit"] == 1]
